@@ -160,9 +160,40 @@ def build_call(spec, n, monitor=None, transplant=False):
     ctx = HCtx(spec['argseed'], n, seed_mode=spec.get('seed_mode', 'int'), monitor=monitor)
     ctx.transplant = transplant
     call = api.build(spec['entry'], ctx)
-    if spec.get('own_dict') is False and call.defaults_dict is None:
-        pass
+    call.lapack_fail = spec.get('lapack_fail')
     return call, ctx
+
+
+# fault: a LAPACK driver does not converge. The numpy / scipy entry points the library looks up at call time are wrapped once;
+# a wrapper only acts for the thread whose current library call carries a plan [which, k]: the k-th call of that routine raises.
+LAPACK_PLAN = {}
+LAPACK_FIRED = [0]
+
+
+def _install_lapack_wrappers():
+    import scipy.linalg
+
+    def mk(orig, which):
+        if getattr(orig, '_verif_wrapped', False):
+            return orig
+
+        def w(*a, **kw):
+            pl = LAPACK_PLAN.get(threading.get_ident())
+            if pl is not None and pl[0] == which:
+                pl[2] += 1
+                if pl[2] == pl[1]:
+                    LAPACK_FIRED[0] += 1
+                    raise np.linalg.LinAlgError('%s did not converge (injected)' % which)
+            return orig(*a, **kw)
+        w._verif_wrapped = True
+        return w
+    np.linalg.svd = mk(np.linalg.svd, 'svd')
+    np.linalg.qr = mk(np.linalg.qr, 'qr')
+    scipy.linalg.lstsq = mk(scipy.linalg.lstsq, 'lstsq')
+    scipy.linalg.rq = mk(scipy.linalg.rq, 'rq')
+
+
+_install_lapack_wrappers()
 
 
 def result_digest(call, ctx, res, exc):
@@ -231,15 +262,19 @@ POISON = [None]     # byte pattern freed memory is filled with before every libr
 
 def run_call(call):
     err0 = np.geterr()
+    plan = getattr(call, 'lapack_fail', None)
     try:
         if POISON[0] is not None:
             poison_heap(POISON[0])
+        if plan:
+            LAPACK_PLAN[threading.get_ident()] = [plan[0], plan[1], 0]
         return call.run(), None
     except SimAbort:
         raise
     except Exception as e:
         return None, e
     finally:
+        LAPACK_PLAN.pop(threading.get_ident(), None)
         err1 = np.geterr()
         if err1 != err0:
             # process-global floating-point error handling was changed by the call and not restored: later results (inf / nan
@@ -446,6 +481,8 @@ def gen_spec(rng, force=None):
     else:
         entry = rng.choice(NAMES)
     sp = {'entry': entry, 'argseed': rng.randrange(1 << 30), 'seed_mode': rng.choice(['int', 'int', 'generator'])}
+    if rng.random() < 0.06:
+        sp['lapack_fail'] = [rng.choice(['svd', 'svd', 'qr', 'lstsq', 'rq']), rng.randint(1, 3)]
     if rng.random() < 0.2 and entry not in REMOD_EXCLUDED:
         sp['remodify'] = True
         sp['seed_mode'] = 'int'
@@ -512,6 +549,7 @@ def execute(sc):
         return execute_process_history(sc)
     sc = copy.deepcopy(sc)
     del ERRSTATE_LEAKS[:]
+    LAPACK_FIRED[0] = 0
     stats = {}
     V = []
     runs = 0
@@ -603,6 +641,8 @@ def execute(sc):
             nm, e0, e1 = ERRSTATE_LEAKS[0]
             V.append(viol('global-error-state', '%s changed numpy\'s process-global floating-point error handling from %s to %s and did not restore it: '
                           'the results of later calls (inf / nan or FloatingPointError) depend on this call having been made' % (nm, e0, e1)))
+        if LAPACK_FIRED[0]:
+            stats['fault.lapack_routine_failed'] = LAPACK_FIRED[0]
         if s.switch_inside:
             stats['probe.context_switch_inside_call'] = s.switch_inside
         nontrivial = 1 if (s.switch_inside or s.perturbed) else 0
